@@ -230,7 +230,14 @@ func checkIndex(name string, got int, flag []bool, smallest bool, ctx func() str
 }
 
 func searchRun[T cmp.Ordered](s []T, p T, predIdx int, r *pbt.R) error {
+	return searchRound(s, nil, p, predIdx, r)
+}
+
+// searchRound: with buf == nil the first round (on a fresh array); otherwise the second round, on the SAME array after its
+// window was rewritten in place (same address, same length, other content): an answer remembered per slice would be stale.
+func searchRound[T cmp.Ordered](s, buf []T, p T, predIdx int, r *pbt.R) error {
 	pred := predOf(predIdx, p)
+	first := buf == nil
 	n := len(s)
 	eq, match := make([]bool, n), make([]bool, n)
 	nEq, nMatch := 0, 0
@@ -253,7 +260,9 @@ func searchRun[T cmp.Ordered](s []T, p T, predIdx int, r *pbt.R) error {
 			other = v
 		}
 	}
-	buf := make([]T, n+3)
+	if first {
+		buf = make([]T, n+3)
+	}
 	copy(buf, s)
 	for i := n; i < len(buf); i++ {
 		// probe, other, probe or other, probe, other: a read behind the window finds the probe, a write of the probe shows
@@ -334,6 +343,24 @@ func searchRun[T cmp.Ordered](s []T, p T, predIdx int, r *pbt.R) error {
 		}
 	}
 
+	if first && n > 0 {
+		// second round: every occurrence of the probe becomes the other value and one other element becomes the probe
+		s2 := append([]T(nil), s...)
+		moved := false
+		for i := n - 1; i >= 0; i-- {
+			if s2[i] == p {
+				s2[i] = other
+			} else if !moved {
+				s2[i], moved = p, true
+			}
+		}
+		if err := searchRound(s2, buf, p, predIdx, r); err != nil {
+			return fmt.Errorf("second round, after the same array was rewritten in place from %#v: %v", s, err)
+		}
+	}
+	if !first {
+		return nil
+	}
 	r.NonTrivialIf(nEq >= 2, "probe value occurs more than once")
 	r.NonTrivialIf(nMatch > 0 && nMatch < n, "predicate splits the slice")
 	if n == 0 {
@@ -1889,7 +1916,7 @@ func TestProp(t *testing.T) {
 			Name: "search",
 			Rule: "IndexOf/LastIndexOf/Contains with a probe value p and FindIndex/FindLastIndex/FindAll/Some/Every with one of the predicates (v==p, v!=p, v<p, v>=p, true, false), " +
 				"decided by the definitions (smallest/largest matching index or -1, exact index->value map, quantifiers). Element types int, string (decimal text, 0 -> \"\") and float64 (v/4), no NaN. " +
-				"Enumerated: every slice up to length 6 (thorough 8) over {0..3} x every probe in -1..4 x every predicate x every element type; random: up to 40 (150) elements of width 2..1e6, probe mostly taken from the slice. The helpers are handed a window of a longer array whose three elements behind the window hold the probe value and another value of the case in turn: the answers must not depend on them and the whole array must read the same afterwards. " +
+				"Enumerated: every slice up to length 6 (thorough 8) over {0..3} x every probe in -1..4 x every predicate x every element type; random: up to 40 (150) elements of width 2..1e6, probe mostly taken from the slice. The helpers are handed a window of a longer array whose three elements behind the window hold the probe value and another value of the case in turn: the answers must not depend on them and the whole array must read the same afterwards; then the window is rewritten in place (probe moved to another position) and every helper is asked again on the same array. " +
 				"Non-trivial = the probe value occurs at least twice, or the predicate holds for some but not all elements. Distinct = enumerated cases (injective) + hash-distinct random cases outside the enumerated scope.",
 			Enum: searchEnum, Gen: searchGen, Prop: searchProp, OutOfEnum: searchOut,
 			RapidQuick: 1500, RapidThorough: 20000,
